@@ -284,7 +284,10 @@ func (n *Name) Substitute(old, new Name) {
 			n.Ident = new.Ident
 			n.ChannelID = new.ChannelID
 		}
-	} else if !n.Initialized() && n.Ident == old.Ident {
+	} else if !n.Initialized() && !old.Initialized() && n.Ident == old.Ident {
+		// Only a name that is not yet linked to a channel (e.g. a parameter or a bound name) is
+		// matched by its identifier. A channel is matched by its identity (above): it must not
+		// capture an unrelated name of the body that merely shares its (indicative) identifier
 		n.Ident = new.Ident
 		n.Channel = new.Channel
 		n.ChannelID = new.ChannelID
